@@ -441,6 +441,9 @@ def _reset_dominates(model, cg, fi, l, attr, ws, depth):
     for st in fi.node.body:
         if any(stmt_of(r.node) is st for r in resets):
             return True, 'reset at the top of %s' % fi.short
+        if any(isinstance(x, ast.Return) for x in ast.walk(st)):
+            return False, '%s can return before it empties the buffer (%s): what an interrupted earlier parse left there ' \
+                          'is drained into this one' % (fi.short, ast.unparse(st).split('\n')[0][:60])
         # does this statement append / reach an appender?
         for n in ast.walk(st):
             if isinstance(n, ast.Call):
